@@ -39,3 +39,13 @@ check("C09",
       "with functional-consistency axioms; composites use a pinned mirror normal and (quick) a pinned origin",
       "symbolic execution of the real Python code with z3 (symx); differential oracle against a first-principles affine map",
       "DESIGN.md 4/C09")
+check("C20",
+      "One symbolic harness per documented precondition (point/edge counts, corner/axis indices and corner pairs in [-3,10], "
+      "number of projection surfaces, length_ratio, inner/outer radius, lean of the radius vector along the axis for "
+      "Cylinder/SemiCylinder/Frustum/Annulus, chain length, contract radius, sketch face counts, clamp/link positions at a "
+      "symbolic offset from a vertex, second clamp, grade/backport before assemble). On accepted paths z3 refutes "
+      "'violated beyond the margin', on rejected paths it refutes 'conforming within the margin'.",
+      "the constructor body below the argument check of the round shapes is cut in symbolic mode (marker exception); "
+      "ClampBase.get_params (scipy minimiser) is replaced by its exact-root contract; margins: 2*TOL / TOL/2",
+      "symbolic execution of the real Python code with z3 (symx), both sides of each boundary symbolic, concrete replay",
+      "DESIGN.md 4/C20")
